@@ -62,7 +62,7 @@ type sconn struct {
 	written  []byte
 	wplans   []writePlan // consumed one per Write call that has bytes
 	nwrites  int
-	readsIn  []byte // every byte returned by Read, in order
+	readsIn  []byte    // every byte returned by Read, in order
 	rlog     []readLog // every Read return that carried bytes or an error, in order
 	local    net.Addr
 	remote   net.Addr
